@@ -3,4 +3,9 @@ META = dict(level='proof', level_text='wip', level_note='wip', trusted_base=[], 
 UNITS = [
     Unit('split.bp', 'c16', 'verif_split', mode='bp', unwind=10, clause='helper'),
     Unit('shape_matmul.bp', 'c16', 'verif_shape_matmul', mode='bp', unwind=10, unwind_loops={'hybrid_ndarray.*resize': 3, 'detail_init_': 3}, object_bits=12, clause='matmul shape'),
+    Unit('matmul_slices_22.bp', 'c16', 'verif_matmul_slices_22', mode='bp', unwind=10, clause='matmul element selection: row/column slices of the broadcast batch element (2-d x 2-d)'),
+    Unit('matmul_slices_33.bp', 'c16', 'verif_matmul_slices_33', mode='bp', unwind=10, clause='matmul element selection: row/column slices of the broadcast batch element (3-d x 3-d, broadcast batch axis)'),
+    Unit('matmul_slices_42.bp', 'c16', 'verif_matmul_slices_42', mode='bp', unwind=10, clause='matmul element selection: row/column slices of the broadcast batch element (4-d x 2-d)'),
+    Unit('matmul_slices_24.bp', 'c16', 'verif_matmul_slices_24', mode='bp', unwind=10, clause='matmul element selection: row/column slices of the broadcast batch element (2-d x 4-d)'),
+    Unit('matmul_slices_43.bp', 'c16', 'verif_matmul_slices_43', mode='bp', unwind=10, clause='matmul element selection: row/column slices of the broadcast batch element (4-d x 3-d, batch parts of different rank)'),
 ]
